@@ -58,6 +58,10 @@ def arm_of(b, bb):
 
 def run(ctx):
     shared.check_threshold_core(ctx, prefix="C04")
+    run_d6(ctx)
+
+
+def run_d6(ctx):
     fx = ctx.fx
     # ---- D6
     vf = fx.fn_opt("crypto::PublicKey::verify")
